@@ -61,6 +61,7 @@ DEFAULT_KNOBS = Knobs(
     argparse_domain=False,  # restrict types to what argparse can express
     p_code_default=0.5,  # for types that admit a code default
     p_hyphen_tokens=0.0,  # long prose carries free-standing '-' / '--' tokens and hyphenated words (wrap points of textwrap)
+    p_return_str_value=0.0,  # the return entry carries a plain string VALUE as default, one character long half of the time
     p_return_literal_source=0.0,  # the returned expression is a bare literal in source form ('5', "'mnist'")
     p_doc_states_default=0.0,  # prose already carries its "Defaults to X" sentence (as the repository's canonical IR does)
 )
@@ -437,6 +438,11 @@ class IRGen:
                         # a declared return type that fits the literal (a bool-typed return of 'mnist' is no interface)
                         fit = {"5": "int", "0.5": "float", "True": "bool", "'mnist'": "str"}[rt["default"]]
                         rt["typ"], rtc = fit, "scalar_" + fit
+                elif k.p_return_str_value and self.chance(k.p_return_str_value):
+                    # a string value (not source text); one-character strings sit on the boundary of the quote stripping
+                    rt["default"] = r.choice(["x", ",", "r", "zq", "val_ret", "two words ret"])
+                    rdc = "str_one_char" if len(rt["default"]) == 1 else "str_plain"
+                    rt["typ"], rtc = "str", "scalar_str"
             if not rt:
                 rt["doc"], rdoc = "the zq_return_type value which is computed", "plain"
             returns = OrderedDict((("return_type", rt),))
